@@ -95,7 +95,7 @@ func checkC01(c *core.Ctx) {
 	c.Assume("theory.Size, theory.ChordTable (conventional chord meanings), theory.Key.TonicOffset", "smfdec", "generated documents keep every pitch inside 0..127")
 
 	// random pieces
-	c.Stream("random", c.N(4000, 30000), func(i int, r *rand.Rand) {
+	c.Stream("random", c.N(4000, 60000), func(i int, r *rand.Rand) {
 		p := model.RandPiece(r, model.GenOpts{MinLen: 1, MaxLen: c.N(12, 40), RestProb: 0.2, SettingProb: 0.15, TextProb: 0.05, KeyChanges: true, BassProb: 0.5})
 		var f model.Flags
 		if r.Intn(3) == 0 {
